@@ -46,6 +46,10 @@ def request_menu():
         s["uihb"] = {"command": "uiHeartbeat", "version": 5, "udValue": rng.bytes(32).hex()}
         # the same, with the UI heartbeat application answering an error status to one of its operations
         s["uihbfail"] = {"command": "uiHeartbeat", "version": 5, "udValue": rng.bytes(32).hex()}
+        # a request that takes the manager down: the device's first answer to it is cut short, which the
+        # middleware does not expect (the client gets {} and the manager stops, C03's matter); what
+        # matters here is that the client gets ITS {} and nobody else's reply
+        s["statecut"] = {"command": "blockchainState", "version": 5}
         slots.append(s)
     return slots
 
@@ -61,6 +65,18 @@ def fail_ui_heartbeat(world):
         if not fired[0] and len(apdu) > 2 and apdu[1] == 0x60 and apdu[2] == 0x02 and w.device.mode != 3:
             fired[0] = True
             return ("sw", 0x6B10)
+        return None
+    world.inject = inject
+
+
+def cut_state_answer(world):
+    """the first answer to a blockchain-state query is cut after the command byte (once)"""
+    fired = [False]
+
+    def inject(w, i, apdu):
+        if not fired[0] and len(apdu) > 1 and apdu[1] == 0x20:
+            fired[0] = True
+            return ("raw", bytes(apdu[:2]))
         return None
     world.inject = inject
 
@@ -98,9 +114,16 @@ class C12(Check):
                 proto = harness.make_protocol(w)
                 if k == "uihbfail":
                     fail_ui_heartbeat(w)
+                if k == "statecut":
+                    cut_state_answer(w)
                 base = len(w.log)
                 o = harness.handle_line(proto, json.dumps(req).encode())
                 okcodes = (-905,) if k == "uihbfail" else (0, 1)
+                if k == "statecut":
+                    # whatever the tree does with it when alone is the reference for "its own reply"
+                    self.solo[(i, k)] = (o.raw, [e[2] for e in w.log[base:] if e[0] == "x"])
+                    self.stops = o.exc is not None
+                    continue
                 if o.exc is not None or not isinstance(o.reply, dict) or o.reply.get("errorcode") not in okcodes:
                     self.pre_violations.append(Violation(
                         "C12", "C12:solo-request-fails:%s" % k, {"cmds": [k], "frag": [1]}, None,
@@ -136,6 +159,11 @@ class C12(Check):
         for other in (("state", "sign") if not self.thorough else ("state", "sign", "heartbeat", "advance", "pubkey")):
             cs.append({"cmds": ["uihbfail", other], "frag": [1, 1], "bound": self.bound - 1})
             cs.append({"cmds": [other, "uihbfail"], "frag": [1, 1], "bound": self.bound - 1})
+        # a request the manager does not survive (or answers with an error of its own), after / before /
+        # between requests that were answered: nobody gets anybody else's reply
+        for other in (("sign", "pubkey") if not self.thorough else ("sign", "pubkey", "heartbeat", "advance", "hash")):
+            cs.append({"cmds": [other, "statecut"], "frag": [1, 1], "bound": self.bound - 1})
+            cs.append({"cmds": ["statecut", other], "frag": [1, 1], "bound": self.bound - 1})
         # the other dongle classes (their connect() runs before the server listens), clients that
         # pause in the middle of their line
         for plat in ("tcp", "sgx"):
@@ -161,6 +189,8 @@ class C12(Check):
             proto = harness.make_protocol(w, platform=case.get("platform", "ledger"))
             if "uihbfail" in cmds:
                 fail_ui_heartbeat(w)
+            if "statecut" in cmds:
+                cut_state_answer(w)
             frags = []
             for i, line in enumerate(lines):
                 if case["frag"][i] == 1:
@@ -205,7 +235,9 @@ class C12(Check):
             vs.append(Violation("C12", "C12:%s:%s" % (clause, name), c, list(ctx.choices),
                                 observed, expected, clause))
         apdus = [e[2] for e in w.log if e[0] == "x"]
-        blocks = [self.solo[(i, k)][1] for i, k in enumerate(cmds)]
+        stops = "statecut" in cmds and getattr(self, "stops", False)
+        answered = [i for i, cl in enumerate(net.clients) if i < len(cmds) and cl.conn is not None and cl.conn.out]
+        blocks = [self.solo[(i, k)][1] for i, k in enumerate(cmds) if not stops or i in answered]
         order = partition(apdus, blocks)
         labels = tuple(p[1].split("|")[0] for ch, p in zip(ctx.choices, ctx.points) if ch and not p[2])
         stats.observe((name, tuple(order) if order else None, labels, sched.deadlock),
@@ -221,13 +253,15 @@ class C12(Check):
             return
         if sched.errors or crashed:
             viol("server-thread-crashed", {"errors": sched.errors[:3], "crashed": crashed}, "none")
-        if info["early_shutdown"]:
+        if info["early_shutdown"] and not stops:
             viol("server-stopped-accepting", {}, "server still accepting when all clients are done")
         for i, cl in enumerate(net.clients):
             if i >= len(cmds):
                 continue          # the client that went away in the middle of its line: no reply owed
             want = self.solo[(i, cmds[i])][0]
             got = cl.conn.out if cl.conn is not None else None
+            if stops and cmds[i] != "statecut" and not got:
+                continue          # the manager stopped before this client was served: nothing owed
             if got != want:
                 viol("wrong-or-missing-reply", {"client": i, "got": got, "connected": cl.conn is not None},
                      {"reply": want})
